@@ -331,6 +331,20 @@ def _clone(E, ci, x):
     return clone_val(E, v)
 
 
+@model('Clone::clone_from', 'ToOwned::clone_into')
+def _clone_from(E, ci, a, b):
+    # clone_from(&mut self, src) / clone_into(&self, &mut target)
+    dst, src = (a, b) if ci.method == 'clone_from' else (b, a)
+    v = src.get() if isinstance(src, Ref) else src
+    if isinstance(v, Slice):
+        kind = {'str': 'String', 'OsStr': 'OsString', 'Path': 'PathBuf'}.get(v.kind, 'Vec')
+        v = VecV([clone_val(E, i) for i in v.items()], kind)
+    else:
+        v = clone_val(E, v)
+    dst.set(v)
+    return UNIT
+
+
 @model('ToOwned::to_owned', 'str::to_owned', 'slice::to_vec', 'str::to_string', 'ToString::to_string',
        '<str as ToString>::to_string', 'String::from_str', 'str::into_string', 'Path::to_path_buf',
        'OsStr::to_os_string', 'OsStr::to_owned', 'Path::to_owned', 'str::into_boxed_str')
